@@ -247,7 +247,7 @@ class SliceEagerSubs(Contract):
       Slice t: result denotes k |-> self(t(k)) and has exactly t's size (C04: the inputs of the result are the
       free inputs of the substituted value) -- for all k < size(t): result.start + result.step*k == start + step*(t.start + t.step*k)."""
 
-    props = ("C01", "C04", "C10")
+    props = ("C01", "C04", "C06", "C10")
     file = "funsor/terms.py"
     qualname = "Slice.eager_subs"
     timeout_ms = 30000
